@@ -449,6 +449,9 @@ func (e *Engine) contractFor(fn *ssa.Function, opts *VCOpts) *Contract {
 						continue next
 					}
 				}
+				if !defaultApplies(d, fn) {
+					continue next
+				}
 				return d
 			}
 		}
@@ -457,6 +460,37 @@ func (e *Engine) contractFor(fn *ssa.Function, opts *VCOpts) *Contract {
 		return opts.AutoContract(fn)
 	}
 	return nil
+}
+
+// defaultApplies: a default contract whose clauses all speak about the error result says nothing about a
+// function that returns no error; such a function keeps being inlined/havoced as if it had no contract.
+func defaultApplies(d *Contract, fn *ssa.Function) bool {
+	if len(d.Requires) > 0 {
+		return true
+	}
+	hasErr := false
+	rs := fn.Signature.Results()
+	for i := 0; i < rs.Len(); i++ {
+		if isErrorType(rs.At(i).Type()) {
+			hasErr = true
+		}
+	}
+	if hasErr {
+		return true
+	}
+	for _, e := range d.Ensures {
+		usesErr := false
+		ast.Inspect(e.Expr, func(n ast.Node) bool {
+			if id, ok := n.(*ast.Ident); ok && id.Name == "err" {
+				usesErr = true
+			}
+			return true
+		})
+		if !usesErr {
+			return true
+		}
+	}
+	return false
 }
 
 // ---------- spec evaluation ----------
